@@ -13,3 +13,17 @@ import (
 func VerifNewSignatureVerifier(repo gitstore.Storer, name string, principals []tuf.Principal, threshold int, exhaustive bool) *SignatureVerifier {
 	return &SignatureVerifier{repository: repo, name: name, principals: principals, threshold: threshold, verifyExhaustively: exhaustive}
 }
+
+// VerifVerifierPrincipals exposes the principals a verifier carries (nil entries included).
+func VerifVerifierPrincipals(v *SignatureVerifier) []tuf.Principal { return v.principals }
+
+// TrustedPrincipalIDsSafe is TrustedPrincipalIDs tolerating nil principals.
+func (v *SignatureVerifier) TrustedPrincipalIDsSafe() []string {
+	out := []string{}
+	for _, p := range v.principals {
+		if p != nil {
+			out = append(out, p.ID())
+		}
+	}
+	return out
+}
